@@ -22,6 +22,7 @@ REQUIRED = {
     "exploration_actions_checked": 400, "target_actions_checked": 400,
     "noise_invariance_samples": 300, "tanh_extreme_outputs": 50,
     "env_actions_checked": 200, "cem_candidates_checked": 100,
+    "samplers_of_one_process_history": 14,
 }
 TIMEOUT = {"quick": 1500, "thorough": 7000}
 ASSUMPTIONS = ["bounds check exact for clipped samplers, <= 4 ulp of "
